@@ -125,10 +125,12 @@ def parseMRead (s : String) : MRead :=
   else if s == "G" then .garbage
   else .ok (parseEntries (s.drop 1).toString)
 
-/-- `f/r/x/m` : failing ordinal or `-`, retriable, file exists, manifest as read. -/
+/-- `f/r/x/m` : failing ordinal or `-`, retriable, file exists, manifest as read (the manifest's paths
+    may contain '/': everything after the third '/' is the manifest). -/
 def parseAttempt (s : String) : Option Attempt :=
   match s.splitOn "/" with
-  | [f, r, x, m] => some ⟨if f == "-" then none else f.toNat?, r == "1", parseMRead m, x == "1"⟩
+  | f :: r :: x :: m :: ms =>
+    some ⟨if f == "-" then none else f.toNat?, r == "1", parseMRead ("/".intercalate (m :: ms)), x == "1"⟩
   | _ => none
 
 def parseScript (s : String) : List Attempt :=
